@@ -8,7 +8,7 @@
    changes, and the call succeeds whenever the annotation exists. *)
 From Stam Require Import Base.Tac Model.Offset Model.Store Model.StoreObs Spec.StoreSpec
      Proofs.StoreScan Proofs.StoreInv Proofs.StoreDataDef Proofs.StoreRemove Proofs.StoreRemove2
-     Proofs.StoreRemove3 Proofs.StoreData Proofs.StoreExact.
+     Proofs.StoreRemove3 Proofs.StoreData Proofs.StoreExact Proofs.StoreExactData.
 
 Theorem C02_nothing_dangles : forall ops,
   let s := run ops in ann_refs_ok s /\ item_refs_ok s /\ data_ok s.
@@ -74,6 +74,20 @@ Theorem C02_remove_dataset_exact : forall ops r h,
 Proof.
   intros ops r h s Hr x Hx. destruct (reachable_Good ops) as (HI & Hwf & _ & Hrf & _).
   apply (rm_dataset_exact s r h HI Hwf Hrf Hr x Hx).
+Qed.
+
+(* remove_data, strict or not, in ANY reachable store: a previously live annotation is gone iff it
+   is in the closure the specification computes (strict: every annotation using the data item;
+   non-strict: those left without data; both: those that target the data item; and everything
+   that reaches one of them), and every survivor is what it was minus that data item *)
+Theorem C02_remove_data_exact : forall ops d x strict,
+  let s := run ops in
+  let s' := fst (remove_data_h s d x strict) in
+  (forall y, get_ann s y <> None -> (get_ann s' y = None <-> In y (deps_data s d x strict)))
+  /\ (forall y a', get_ann s' y = Some a' -> exists a, get_ann s y = Some a /\ a' = ann_remove_data a d x).
+Proof.
+  intros ops d x strict s. destruct (reachable_Good ops) as (HI & Hwf & _ & Hrf & _).
+  apply (remove_data_h_exact s d x strict HI Hwf Hrf).
 Qed.
 
 (* the closure of the specification is reachability along "targets an annotation" edges *)
